@@ -321,6 +321,16 @@ def make_case(rng, with_faults):
                 pin = f"other{i}.o"
         prefix.append({"op": "match", "rule": rel, "input": pin, "type": "binary", "ret": rng.choice(["bool", "stream", "list"]), "search": rng.choice(["first", "all"])})
         pclass = pc if pclass == "none" else pclass + "," + pc
+    # an earlier disassembly of a BIGGER object failed after objdump had printed everything (exit 1 with full stdout)
+    if rng.random() < 0.08:
+        bsrc, _bm = gen.gen_big_source(rng, rng.choice([300, 900]))
+        bigobj = gen.assemble(bsrc)
+        if bigobj is not None:
+            files["earlier/big.o"] = bigobj
+            files["earlier/plain.yaml"] = gen.dump_yaml({"pattern": ["mov"]})
+            prefix.append({"op": "match", "rule": "earlier/plain.yaml", "input": "earlier/big.o", "type": "binary", "ret": "bool",
+                           "faults": [{"kind": "rc", "code": 1, "stdout": "full", "stderr": "objdump: simulated late failure", "label": "rc1_fullstdout"}]})
+            pclass = "failed-big-listing" if pclass == "none" else pclass + ",failed-big-listing"
     # the same path held another object a moment ago, and was disassembled with the same rule
     if rng.random() < 0.15 and "path" not in shape and not isinstance(files.get(OBJ), dict):
         src0, _m0 = gen.gen_asm_source(rng, sections=[m["name"] for m in meta][:4] if not shape["obj"].startswith("real") else None)
@@ -355,7 +365,10 @@ def make_case(rng, with_faults):
         shape["fault"] = "none"
     ops += main
     shape["names"] = f"{'plain' if OBJ in ('in.o', 'in.bin') else 'odd'}"
-    return {"files": {k: util.enc_content(v) for k, v in files.items()}, "ops": ops, "extra": {"shape": shape, "rule_file": RULE}}
+    log_level = rng.choice([None, None, None, "DEBUG", "INFO"])
+    if log_level:
+        shape["log"] = log_level
+    return {"files": {k: util.enc_content(v) for k, v in files.items()}, "ops": ops, "extra": {"shape": shape, "rule_file": RULE, "log_level": log_level}}
 
 
 def _rule_sections(files, rel):
@@ -384,7 +397,7 @@ def evaluate_case(case, runner, seed=0):
     files = case["files"]
     ops = case["ops"]
     runner.materialise(files)
-    res = runner.run(ops, seed)
+    res = runner.run(ops, seed, {"log_level": (case.get("extra") or {}).get("log_level")})
     viols = []
     checked = 0
     info = {"argv": [e["argv"] for e in res["events"] if e["seam"] == "spawn"], "escapes": res["escapes"], "vtime": res["vtime"],
